@@ -513,12 +513,28 @@ def vec_validate(trace, work):
     val = validate("TraceVec", c, trace, work)
     for v in val["violations"]:
         d = v["detail"]
-        # a delivered diff that no pending message explains, or a missing one, while a commit is pending and no lag is possible,
-        # contradicts C07 (the commit is not published as the unit it was) AND C05 (replaying does not reproduce the states /
-        # the two stream flavours differ)
-        if v["prop"] == "C07" and v["clause"] in ("unexplained-diff", "diffs-missing") and d.get("op") == "Poll" \
-                and not len(d.get("msgs", [])) > d.get("cap", 0):
-            v["props"] = ("C07", "C05")
+        if d.get("op") != "Poll":
+            continue
+        # One observation can contradict the text of several properties; the trace specification names the most specific one,
+        # the others are added here (a violation is reported under every property whose text it contradicts):
+        #  C05 "replaying a subscriber's diffs reproduces each vector state; both stream flavours deliver the same diffs"
+        #  C06 "... whenever the stream reports Pending the replica equals the vector; no delivered diff is ever inapplicable;
+        #       each item of the batched stream brings its subscriber fully up to date"
+        #  C07 "commit publishes the changes as one unit: applied to the pre-transaction state they yield the post-transaction
+        #       state ... a batched subscriber never observes a state in between"
+        lag = len(d.get("msgs", [])) > d.get("cap", 0)
+        many = any(m.get("n") != "one" for m in d.get("msgs", []))
+        props = {v["prop"]}
+        cl = v["clause"]
+        if cl in ("inapplicable", "not-up-to-date-at-pending", "batch-not-up-to-date"):
+            props.add("C06")
+            if not lag:
+                props.add("C05")
+        if cl in ("unexplained-diff", "diffs-missing") and not lag:
+            props.add("C05")
+        if many and not lag and cl in ("inapplicable", "unexplained-diff", "diffs-missing", "batch-not-up-to-date", "not-up-to-date-at-pending"):
+            props.add("C07")
+        v["props"] = tuple(sorted(props))
     return val
 
 
@@ -551,8 +567,9 @@ def vec_pipeline(prop, tier, seed, work, t0):
              ("SpecTxn", dict(Caps={1}, Depth=6 if quick else 7, SubIds={1}, MaxLen=1), "edge"),
              ("SpecStreamsPre", dict(pre, Caps={1, 2}, Depth=4 if quick else 5), "edge"),
              ("SpecTxnCore", dict(pre, Caps={1}, Depth=7 if quick else 8, InitLens={1}), "edge"),
-             ("SpecLag", dict(pre, Caps={1, 2}, Depth=6 if quick else 7, InitLens={1}, PreSubs={2}), "tree"),
-             ("SpecLagDeep", dict(pre, Caps={3, 5}, Depth=7 if quick else 9, InitLens={1}, PreSubs={1}, MaxLen=12), "tree")],
+             ("SpecLag", dict(pre, Caps={1}, Depth=6 if quick else 7, InitLens={1}, PreSubs={2}), "tree"),
+             ("SpecLag", dict(pre, Caps={2}, Depth=5 if quick else 6, InitLens={1}, PreSubs={2}), "tree"),
+             ("SpecLagDeep", dict(pre, Caps={3, 5}, Depth=7 if quick else 8, InitLens={1}, PreSubs={1}, MaxLen=12), "tree")],
         C07=[("SpecTxn", dict(Caps={1, 16}, Depth=5 if quick else 6, SubIds={1}), "edge"),
              ("SpecTxnSmall", dict(pre, Caps={16}, Depth=6 if quick else 7), "edge"),
              ("SpecTxnCore", dict(pre, Caps={16}, Depth=8 if quick else 9), "edge"),
@@ -648,44 +665,50 @@ def ad_plans(prop, quick):
     """(spec, mode, constants, num) generation plans per property; sizes measured with tools/plan_sizes.py.
     mode: "edge" one behaviour per transition (shortest prefix); "tree" every path of exactly Depth operations
     (needed because adapters keep internal state the generator does not model); "sim" random walks."""
-    D = 4 if quick else 5
+    # the exhaustive plans (edge / tree) are the same in both tiers: one level deeper is 2-6 million behaviours per plan
+    # (measured with tools/plan_sizes.py); the thorough tier adds random walks and long-vector walks instead
+    D = 4
     both = {"plain", "batched"}
-    sim_n = lambda q, t: max(q // 3, 50) if quick else t
+    sim_n = lambda q, t: max(q // 3, 50) if quick else t // 2
     dyn2 = dict(Modes={"dyninit"}, Params={1, 2}, InitLens={3}, MaxLen=5)
     def big(kinds, **over):
         # long vectors (imbl's representation changes at 64 items): walks from 66 / 130 initial items, appends of 40 / 70,
         # mutators at representative indices, limits around the boundary
         return ("GSpecBig", "sim", ad_base(**dict(dict(StageKinds=kinds, NStages={1}, Depth=25, Caps={16, 256}, InitLens={66, 130},
                                                        Params={0, 1, 3, 64, 65, 100}, MaxLen=400, PipeFlavs=both), **over)),
-                12 if quick else 400)
+                12 if quick else 150)
+    def bigtree(kinds, params, flavs):
+        # complete tree over a long vector: every pair of mutator calls at representative indices, then one poll
+        return ("GSpecBigTree", "tree", ad_base(StageKinds=kinds, NStages={1}, Depth=3, Caps={256}, InitLens={66}, Params=params,
+                                                Modes={"static"}, MaxLen=400, PipeFlavs=flavs), 0)
     if prop == "C09":
-        return [big(LIMIT_KINDS)] + [("GSpec", "edge", ad_base(StageKinds={k}, Depth=D, PipeFlavs={"plain"}, InitLens={2},
+        return [big(LIMIT_KINDS), bigtree(LIMIT_KINDS, {65, 100}, {"plain"})] + [("GSpec", "edge", ad_base(StageKinds={k}, Depth=D, PipeFlavs={"plain"}, InitLens={2},
                                           Modes={"dyn", "dyninit"},
                                           Params={0, 1, 3}), 0) for k in sorted(LIMIT_KINDS)] + [
             ("GSpecCore", "tree", ad_base(StageKinds={k}, Depth=D, CoreSet="lean", **dyn2), 0) for k in sorted(LIMIT_KINDS)] + [
-            ("GSpecLimits", "tree", ad_base(Depth=D if quick else D + 1, Modes={"dyninit", "dyn"}, Params={1, 3, 4}, InitLens={2}), 0),
+            ("GSpecLimits", "tree", ad_base(Depth=D, Modes={"dyninit", "dyn"}, Params={1, 3, 4}, InitLens={2}), 0),
             ("GSpec", "edge", ad_base(Depth=D, Caps={1}, InitLens={2}, Modes={"dyninit"}, Params={1, 2}, PipeFlavs={"plain"}), 0),
             ("GSpecTxnSmall", "edge", ad_base(Depth=D + 2, InitLens={2}, Modes={"static"}, Params={2}, MaxLen=4), 0),
             ("GSpecTxn", "sim", ad_base(Depth=40, Caps={1, 2, 16}, InitLens={0, 1, 3, 5}, Params={0, 1, 2, 3, 5, 8}, MaxLen=8,
                                         PipeFlavs=both), sim_n(500, 6000))]
     if prop == "C10":
         K = {"filter", "filter_map"}
-        return [big(K), ("GSpec", "edge", ad_base(StageKinds=K, Depth=D, InitLens={3}, PipeFlavs=both), 0),
+        return [big(K), bigtree(K, {1}, both), ("GSpec", "edge", ad_base(StageKinds=K, Depth=D, InitLens={3}, PipeFlavs=both), 0),
                 ("GSpecCore", "tree", ad_base(StageKinds=K, Depth=D, CoreSet="full", InitLens={3}, MaxLen=5, PipeFlavs={"plain"}), 0),
-                ("GSpec", "edge", ad_base(StageKinds=K, Depth=D if quick else D + 1, Caps={1}, InitLens={2}, MaxLen=3, PipeFlavs=both), 0),
+                ("GSpec", "edge", ad_base(StageKinds=K, Depth=D, Caps={1}, InitLens={2}, MaxLen=3, PipeFlavs=both), 0),
                 ("GSpecTxnSmall", "edge", ad_base(StageKinds=K, Depth=D + 2, InitLens={2}, MaxLen=4, PipeFlavs={"batched"}), 0),
                 ("GSpecTxn", "sim", ad_base(StageKinds=K, Depth=40, Caps={1, 2, 16}, InitLens={0, 1, 3, 5}, MaxLen=8,
                                             PipeFlavs=both), sim_n(500, 6000))]
     if prop == "C11":
         K = {"sort", "sort_by", "sort_by_key"}
-        return [big(K), ("GSpec", "edge", ad_base(StageKinds=K, Depth=D, InitLens={3}, MaxLen=4, PipeFlavs={"batched"}), 0),
+        return [big(K), bigtree(K, {1}, both), ("GSpec", "edge", ad_base(StageKinds=K, Depth=D, InitLens={3}, MaxLen=4, PipeFlavs={"batched"}), 0),
                 ("GSpecCore", "tree", ad_base(StageKinds=K, Depth=D, CoreSet="full", InitLens={3}, MaxLen=5, PipeFlavs={"plain"}), 0),
-                ("GSpec", "edge", ad_base(StageKinds=K, Depth=D if quick else D + 1, Caps={1}, InitLens={2}, MaxLen=3), 0),
+                ("GSpec", "edge", ad_base(StageKinds=K, Depth=D, Caps={1}, InitLens={2}, MaxLen=3), 0),
                 ("GSpecTxnSmall", "edge", ad_base(StageKinds=K, Depth=D + 2, InitLens={3}, MaxLen=5), 0),
                 ("GSpecTxn", "sim", ad_base(StageKinds=K, Depth=40, Caps={1, 2, 16}, InitLens={0, 1, 3, 5, 7}, MaxLen=9,
                                             PipeFlavs=both), sim_n(500, 6000))]
     if prop == "C12":
-        return [big(ALL_KINDS, NStages={2}, SelfObs={0, 1}), ("GSpecCore", "tree", ad_base(StageKinds=ALL_KINDS, NStages={2}, Depth=3 if quick else 4, InitLens={3}, Modes={"dyn", "static"},
+        return [big(ALL_KINDS, NStages={2}, SelfObs={0, 1}), ("GSpecCore", "tree", ad_base(StageKinds=ALL_KINDS, NStages={2}, Depth=3, InitLens={3}, Modes={"dyn", "static"},
                                               Params={2}, SelfObs={0, 1}, MaxLen=5, CoreSet="lean"), 0),
                 ("GSpecTxn", "sim", ad_base(StageKinds=ALL_KINDS, NStages={2, 3}, Depth=30, Caps={2, 16}, InitLens={0, 2, 4, 6},
                                             Params={0, 1, 2, 4}, MaxLen=8, SelfObs={0, 1}, PipeFlavs=both),
@@ -701,7 +724,7 @@ def ad_plans(prop, quick):
                                             MaxLen=8, PipeFlavs={"batched"}), sim_n(400, 5000))]
     if prop == "C14":
         return [("GSpec", "edge", ad_base(StageKinds=ALL_KINDS, Depth=D, InitLens={2}, Modes={"dyn"}, Params={1, 3}, PipeFlavs=both), 0),
-                ("GSpecLimits", "tree", ad_base(Depth=D if quick else D + 1, Modes={"dyninit"}, Params={1, 3, 4}, InitLens={2}, PipeFlavs=both), 0),
+                ("GSpecLimits", "tree", ad_base(Depth=D, Modes={"dyninit"}, Params={1, 3, 4}, InitLens={2}, PipeFlavs=both), 0),
                 ("GSpecCore", "tree", ad_base(StageKinds=ALL_KINDS - LIMIT_KINDS, Depth=D, CoreSet="lean", InitLens={2}, MaxLen=4), 0),
                 ("GSpecTxnWake", "tree", ad_base(StageKinds={"skip", "filter"}, Modes={"static"}, Params={0}, Depth=D + 3, InitLens={0}, MaxLen=4,
                                                  PipeFlavs=both), 0),
@@ -781,9 +804,13 @@ def ad_sig(v):
         ps = set(d.get("pset", [[]] * stage)[stage - 1])
         fn = set(d.get("fin", [[]] * stage)[stage - 1])
         inlen = d.get("inlen", 0)
+        # the lengths the stage's input may have had while the limit change was processed: at the last quiescent point
+        # (inlen), before this poll and after it -- and anything in between (diffs of one poll grow and shrink it)
+        lens0 = [inlen] + [len(v[stage - 1]) for v in (d.get("views") or [], d.get("newviews") or []) if len(v) >= stage]
+        inlens = range(min(lens0), max(lens0) + 1)
         # D2: a decrease o -> n with o > length > n >= 1.  Both limits may belong to an EARLIER poll of the same quiescent
         # period (a limit change's PopFronts are parked and handed out one per poll), so n ranges over pset as well
-        if st.get("kind") in LIMIT_KINDS and any(o > inlen > n >= 1 for o in ps for n in (fn | ps)):
+        if st.get("kind") in LIMIT_KINDS and any(o > ln > n >= 1 for o in ps for n in (fn | ps) for ln in inlens):
             cause = "limit-decrease-from-beyond-length"
         elif str(st.get("kind", "")).startswith("sort") and "Truncate" in d.get("outkinds", []):
             # a sort stage never produces a Truncate of its own: one in its output is a forwarded source Truncate
@@ -802,7 +829,8 @@ def ad_sig(v):
             if low.get("kind") == "tail":
                 ps = set(d.get("pset", [[]] * j)[j - 1])
                 fn = set(d.get("fin", [[]] * j)[j - 1])
-                lens = {len(v[j - 1]) for v in (views, newviews) if len(v) >= j}
+                lens0 = [len(v[j - 1]) for v in (views, newviews) if len(v) >= j] or [0]
+                lens = range(min(lens0), max(lens0) + 1)
                 if any(o > ln > n >= 1 for o in ps for n in (fn | ps) for ln in lens):
                     cause = "limit-decrease-from-beyond-length"
                     sig.update(stage_kind="tail", stage_mode=low.get("mode"), stage_family="tail", root_stage=j)
